@@ -216,7 +216,7 @@ Definition costs_ok : bool :=
 
 (* constants the hand-written frame model hard-codes *)
 Definition consts_ok : bool :=
-  N.eqb back_branch_enabled_version 4 && N.eqb mode_sig ModeSig && N.eqb mode_app ModeApp
+  N.eqb back_branch_enabled_version 4 && N.eqb shared_resources_version 9 && N.eqb mode_sig ModeSig && N.eqb mode_app ModeApp
   && N.eqb (N.of_nat max_depth_nat) max_stack_depth.
 
 (* ------------------------------------------------------------------ the source-level view used by the C34 oracle *)
